@@ -22,7 +22,5 @@ def jobs(tier):
     J.append(kjob('cv_mutex_2w_all', SRC, 3, 7, ['TWO_WAITERS', 'NOTIFY_ALL'], desc='mutex: 2 waiters, notify_all', timeout=1200, unwind=4, mem_gb=10))
     # several vCPUs: the other thread may run before every atomic operation and before every blocking call of the primitive
     J.append(kjob('cv_spin_1w_one_mv', SRC, 2, 7, ['USE_SPINLOCK'], mode='preempt', desc='spinlock: 1 waiter, notify_one, waiter and notifier on different vCPUs (pre-emption at atomic operations)', timeout=900, unwind=3, mem_gb=8))
-    if not q:
-        J.append(kjob('cv_mutex_2w_one_yh', SRC, 3, 8, ['TWO_WAITERS', 'YIELD_HOLDING'], desc='mutex: 2 waiters, notify_one, notifier may yield holding the lock', timeout=3000, unwind=4, mem_gb=16))
     for j in J: j.cbmc += ['-DVERIF_STUCK_IS_LEGAL']
     return J
